@@ -4,6 +4,12 @@
 
 package client
 
+// (C17) The known-hosts file is created (empty) by NewKnownHostsCallback and
+// rewritten by trustHosts, under the contracts below; the only other file this
+// package writes is a generated key pair (writeKey). Nothing else in the
+// package creates, replaces, renames or removes a file.
+//@ fs-writers-only NewKnownHostsCallback, (KnownHostsCallback).trustHosts, writeKey
+
 // ---- host key trust (C17) -------------------------------------------------------------------------
 //@ type KnownHostsCallback invariant [made] self.unknownCh != nil && self.trustAllHostsCh != nil && self.untrustedHosts != nil && self.mutex != nil
 
